@@ -166,7 +166,6 @@ def run(ctx):
     for cid, files, via in det_cases():
         cases.append(("det:" + cid, files, via, "det"))
     cases.append(("witness:parsefsdir-no-package", [{"name": "a.txt", "src": "x"}], "parsefsdir", "det"))
-    cases.append(("witness:bodiless-func-writeto", [{"name": "a.xgo", "src": "func f(x int) int\n\nprintln f(1)\n"}], "", "det"))
     for cid, files in bases:
         cases.append((cid, files, "", "none"))
     nmut = ctx.n(1300, 120000)
@@ -235,7 +234,7 @@ def run(ctx):
         verdicts[verdict] = verdicts.get(verdict, 0) + 1
         for mk in c[3].split("+"):
             muts[mk] = muts.get(mk, 0) + 1
-        if kind in ("err", "parse+err", "parse+ok", "ok", "ok-bodiless-nowrite"):
+        if kind in ("err", "parse+err", "parse+ok", "ok", "writeto-panic"):
             distinct.add(g9gen.pkg_key(c[1]))
         if ms > slowest[0]:
             slowest = (ms, c[0])
@@ -253,8 +252,10 @@ def run(ctx):
                    "unmutated bases (%d /repo corpus packages, generated XGo and Go programs) + %d seeded mutants (1-2 structured "
                    "mutations of one file; 1/6 of the single-file ones through x/build BuildFile); non-trivial = distinct input "
                    "that reached the compiler (parsed at least partially). Not exercised in the random part (known findings, "
-                   "deterministic witnesses only): Recorder together with a failing gogen.NewPackage; gogen's WriteTo on a package "
-                   "with a func declared without body (counted as ok-bodiless-nowrite) and on packages from partial ASTs."
+                   "deterministic witness only): Recorder together with a failing gogen.NewPackage. A panic of the PARSER "
+                   "(kind parser-panic) is outside C07 (not parser-accepted input; C13); a panic of gogen's WriteTo after NewPackage "
+                   "returned err == nil (kind writeto-panic) is an invalid output and is accounted to C06; WriteTo is not called on "
+                   "packages built from partial ASTs."
                    % (len(scen), len(FIXED_SCENARIOS) + 1, len(cases), len(det_cases()) + 1, len(bases),
                       sum(1 for b in bases if b[0].startswith("corpus:")), nmut),
               explanation="kernel theorem over the recover skeleton + K-gen audit of recover sites + K-diff with injected panics + mutation fuzz",
